@@ -92,8 +92,17 @@ func TestProp_Metadata(t *testing.T) {
 			}
 		}
 		opts := []nodeenrollment.Option{nodeenrollment.WithExtraAlpnProtos(extras)}
+		// the node's option list may come from shared defaults plus a per-connection
+		// override (options are last-wins): an earlier state, then the one that counts -
+		// which may be "none"
+		overridden := rapid.IntRange(0, 3).Draw(t, "stateOverridesAnEarlierOne") == 0
+		if overridden {
+			opts = append(opts, nodeenrollment.WithState(vkit.UniqueStruct("default-state-that-is-overridden")))
+		}
 		if state != nil {
 			opts = append(opts, nodeenrollment.WithState(state))
+		} else if overridden {
+			opts = append(opts, nodeenrollment.WithState(nil))
 		}
 		// Half of the dials go through protocol.Dial; the other half through
 		// tls.ClientConfigs (the configuration protocol.Dial itself uses), which
@@ -172,7 +181,7 @@ func TestProp_Metadata(t *testing.T) {
 			conn, err = rig.Dial(node, opts...)
 		}
 		results := rig.Sync()
-		desc := map[string]any{"state": kind, "extras": shorten(extras), "listener_options_include_state_and_protocols": listenerHasOptions}
+		desc := map[string]any{"state": kind, "extras": shorten(extras), "listener_options_include_state_and_protocols": listenerHasOptions, "state_option_overrides_an_earlier_one": overridden}
 		if state != nil {
 			b, _ := proto.Marshal(state)
 			desc["state_bytes"] = len(b)
